@@ -95,13 +95,24 @@ def binarizer_st(arms):
 def lp_st(draw, names, arms=None, deterministic=False, lam_min=0.01, with_binarizer=False,
           scale_ok=False, boundary=True):
     name = draw(st.sampled_from(list(names)))
+    # boundary values the documentation names, or (one time in three) any value of the documented range
+    anyval = draw(st.integers(0, 2)) == 0
+
+    def q(x):
+        return round(x, 4)
     if name == "EpsilonGreedy":
         if deterministic:
             return [name, {"epsilon": draw(st.sampled_from([0, 0.0]))}]
+        if anyval:
+            return [name, {"epsilon": q(draw(st.floats(0, 1, allow_nan=False)))}]
         return [name, {"epsilon": draw(st.sampled_from([0, 0.25, 1, 0.5, 0.1, 1.0]))}]
     if name == "UCB1":
+        if anyval:
+            return [name, {"alpha": q(draw(st.floats(0, 5, allow_nan=False)))}]
         return [name, {"alpha": draw(st.sampled_from([0, 1, 0.5, 2.25, 0.1]))}]
     if name == "Softmax":
+        if anyval:
+            return [name, {"tau": q(draw(st.floats(0.05, 10, allow_nan=False)))}]
         return [name, {"tau": draw(st.sampled_from([1, 0.5, 0.1, 5, 2.5]))}]
     if name in ("Popularity", "Random"):
         return [name, {}]
@@ -110,14 +121,18 @@ def lp_st(draw, names, arms=None, deterministic=False, lam_min=0.01, with_binari
             return [name, {"binarizer": draw(binarizer_st(arms))}]
         return [name, {}]
     lam = draw(st.sampled_from([1.0, 1, 0.5, 2, 10, 0.25, 100] if lam_min <= 0.25 else [1.0, 1, 2, 10]))
+    if anyval:
+        lam = q(draw(st.floats(max(lam_min, 0.05), 100, allow_nan=False)))
     scale = draw(st.booleans()) if scale_ok else False
     if name == "LinGreedy":
         eps = 0 if deterministic else draw(st.sampled_from([0, 0.25, 1, 0.5]))
         return [name, {"epsilon": eps, "l2_lambda": lam, "scale": scale}]
     if name == "LinUCB":
-        return [name, {"alpha": draw(st.sampled_from([0, 1, 0.5, 2.25, 1.0])), "l2_lambda": lam, "scale": scale}]
+        al = q(draw(st.floats(0, 5, allow_nan=False))) if anyval else draw(st.sampled_from([0, 1, 0.5, 2.25, 1.0]))
+        return [name, {"alpha": al, "l2_lambda": lam, "scale": scale}]
     if name == "LinTS":
-        return [name, {"alpha": draw(st.sampled_from([1, 0.5, 0.1, 2.0])), "l2_lambda": lam, "scale": scale}]
+        al = q(draw(st.floats(0.01, 3, allow_nan=False))) if anyval else draw(st.sampled_from([1, 0.5, 0.1, 2.0]))
+        return [name, {"alpha": al, "l2_lambda": lam, "scale": scale}]
     raise ValueError(name)
 
 
@@ -206,6 +221,8 @@ def grid_value_st(grid):
         return st.integers(-6, 6).map(lambda k: k / 2.0)
     if grid == "small":
         return st.integers(-1, 1)
+    if grid == "real":      # real-valued contexts (two decimals); only for checks that compare with a tolerance
+        return st.integers(-300, 300).map(lambda k: k / 100.0)
     raise ValueError(grid)
 
 
